@@ -26,6 +26,7 @@ func main() {
 	verif := flag.String("verif", "/verif", "path of the verification directory (evidence, known findings)")
 	list := flag.Bool("list", false, "list registered properties")
 	dump := flag.String("dump", "", "debug: rel/pkg:Func — print call keys and SSA of a function")
+	factsOf := flag.String("facts", "", "debug (with -dump): print branch facts at calls to this callee key")
 	flag.Parse()
 	if *list {
 		ids := []string{}
@@ -75,6 +76,12 @@ func main() {
 		if f == nil {
 			fmt.Println("not found")
 			os.Exit(2)
+		}
+		if *factsOf != "" {
+			for _, s := range callsTo(f, true, *factsOf) {
+				fmt.Printf("facts at %s: %s\n", c.Pos(s.Pos()), factList(factsAt(s)))
+			}
+			return
 		}
 		fmt.Println("call keys:")
 		for _, k := range callKeys(f, true) {
